@@ -26,15 +26,21 @@ for cfg, which in CONES:
             continue
         fn, rest = key.split("|", 1)
         hit = None
-        for frx, srx, basis, reason, callers in REASONS:
+        for entry in REASONS:
+            frx, srx, basis, reason, callers = entry[:5]
             if re.search(frx, fn) and re.search(srx, rest):
-                hit = (basis, reason, callers)
+                # optional 6th element: regexes of the dominating decisions the discharge argument USES. Only those
+                # become required guards; without it every dominating decision is required (conservative: reordering
+                # independent tests then makes the row stale)
+                hit = (basis, reason, callers, entry[5] if len(entry) > 5 else None)
                 break
         if hit is None:
             unmatched[key] = s.loc
             continue
         prev = rows.get(key)
         g = set(guards)
+        if hit[3] is not None:
+            g = {x for x in g if any(re.search(r_, x) for r_ in hit[3])}
         if prev:
             g = set(prev["guards"]) & g   # guards common to all configurations
         rows[key] = {"basis": hit[0], "reason": hit[1], "guards": sorted(g), "callers": hit[2]}
